@@ -42,3 +42,44 @@ Example C14_cut_inside_second_step :
   wf u = true /\ mm_read (firstn 140 (enc u)) 560 = Err
   /\ (exists v, mm_read (firstn 134 (enc u)) 536 = Ok v /\ v_ntimes v = 1).
 Proof. vm_compute. split; [reflexivity|split; [reflexivity|eexists; split; reflexivity]]. Qed.
+
+(* ======================================================================================================
+   CAMx LATERAL BOUNDARY files (Model/Lbdy.v, reader model from the translated lateral_boundary/Memmap.py)
+   ====================================================================================================== *)
+From PNC Require Import Model.Lbdy Proofs.LbdyProofs.
+
+(* The lateral-boundary memory-mapped reader never looks past the end of the file *)
+Theorem C14_lbdy_reader_local : forall ws c, 0 <= c ->
+  lb_mm_read (firstn (Z.to_nat (c / 4)) ws) c = lb_mm_read ws c.
+Proof. exact lb_mm_read_local. Qed.
+Print Assumptions C14_lbdy_reader_local.
+
+(* Main theorem: for EVERY well-formed lateral-boundary file and EVERY cut point c (in bytes), opening the first
+   c bytes either raises, or c is exactly header + k whole steps (k >= 1) and the reader presents exactly the
+   first k steps of the full file (same boundary values, same time-header words, same grid and species). *)
+Theorem C14_lbdy_every_prefix : forall l c, lb_wf l = true -> 0 <= c <= 4 * Z.of_nat (length (lb_enc l)) ->
+  lb_mm_read (firstn (Z.to_nat (c / 4)) (lb_enc l)) c = Err \/
+  exists k, (1 <= k <= length (l_steps l))%nat /\ c = 4 * (lb_hdr_words l + Z.of_nat k * lb_step_words l) /\
+            lb_mm_read (firstn (Z.to_nat (c / 4)) (lb_enc l)) c = Ok (lb_view_of (lb_truncate_steps k l)).
+Proof. exact lb_mm_read_prefix. Qed.
+Print Assumptions C14_lbdy_every_prefix.
+
+(* The reader's own test `int(ntimes) != ntimes` can never fire here: ntimes is computed with FLOOR divisions
+   (translated expression lm_ntimes), so a file holding k whole steps plus ANY r < step bytes gives ntimes = k.
+   What rejects the ragged prefixes in C14_lbdy_every_prefix is numpy.memmap's whole-number-of-items rule. *)
+Theorem C14_lbdy_ntimes_is_floor : forall hdr sw k r, 0 < sw -> 0 <= k -> 0 <= r < 4 * sw ->
+  lm_ntimes (4 * hdr + k * (4 * sw) + r) (4 * hdr) sw = k.
+Proof. exact lb_ntimes_floor. Qed.
+Print Assumptions C14_lbdy_ntimes_is_floor.
+
+Example C14_lbdy_cut_inside_second_step :
+  let l := {| l_name := repeat 65 10; l_note := repeat 66 60; l_itzon := 0; l_dates := [2001; 0; 2001; 2];
+     l_gpre := repeat 7 7; l_nx := 2; l_ny := 2; l_nz := 1; l_gpost := [0; 0; 5; 5; 0];
+     l_spc := [repeat 80 10]; l_edges := std_edges 2 2;
+     l_steps := [([2001; 0; 2001; 1], [Quad [11; 12] [13; 14] [15; 16] [17; 18]]);
+                 ([2001; 1; 2001; 2], [Quad [21; 22] [23; 24] [25; 26] [27; 28]])] |} in
+  lb_wf l = true /\ lb_hdr_words l = 165 /\ lb_step_words l = 70
+  /\ lb_mm_read (firstn 240 (lb_enc l)) 960 = Err
+  /\ lb_mm_read (firstn 165 (lb_enc l)) 660 = Err
+  /\ (exists v, lb_mm_read (firstn 235 (lb_enc l)) 940 = Ok v /\ lv_ntimes v = 1).
+Proof. vm_compute. repeat split; try reflexivity. eexists; split; reflexivity. Qed.
